@@ -4,6 +4,7 @@
 package vkit
 
 import (
+	"reflect"
 	"runtime"
 	"runtime/debug"
 	"sync"
@@ -66,9 +67,63 @@ func Churn(n int) {
 	}
 }
 
-// ChurnSmall floods the size classes closures and reflect.MakeFunc values live in (16..64 bytes), so that
-// slots freed by the last collection are reused and overwritten deterministically.
+// Poisoned is the text of the panic raised when code jumps through a func-value-shaped object that the collector
+// had freed and ChurnSmall re-allocated.
+const Poisoned = "POISON: a callback was garbage collected while machine code still referred to it (its memory was reused)"
+
+//go:noinline
+func poison() { panic(Poisoned) }
+
+var poisonPC = reflect.ValueOf(poison).Pointer()
+
+// func-value-shaped objects with pointer fields: they live in the same (pointer-scanned) span classes as closures and
+// reflect.MakeFunc implementations, whose first word is a code address
+type p16 struct {
+	F uintptr
+	A *int
+}
+type p24 struct {
+	F    uintptr
+	A, B *int
+}
+type p32 struct {
+	F       uintptr
+	A, B, C *int
+}
+type p48 struct {
+	F uintptr
+	A [5]*int
+}
+type p64 struct {
+	F uintptr
+	A [7]*int
+}
+type p80 struct {
+	F uintptr
+	A [9]*int
+}
+
+var poisonKeep []interface{}
+
+// ChurnSmall floods the size classes closures and reflect.MakeFunc values live in (16..80 bytes, pointer-scanned and
+// pointer-free), so that slots freed by the last collection are reused deterministically. The pointer-scanned
+// objects look like func values whose code pointer is `poison`: machine code that still jumps through a collected
+// callback then panics with Poisoned instead of running random memory.
 func ChurnSmall(n int) {
+	for i := 0; i < n; i++ {
+		a := &p16{F: poisonPC}
+		b := &p24{F: poisonPC}
+		c := &p32{F: poisonPC}
+		d := &p48{F: poisonPC}
+		e := &p64{F: poisonPC}
+		f := &p80{F: poisonPC}
+		if i%257 == 0 {
+			poisonKeep = append(poisonKeep, a, b, c, d, e, f)
+		}
+	}
+	if len(poisonKeep) > 20000 {
+		poisonKeep = nil
+	}
 	var keep [][]byte
 	for i := 0; i < n; i++ {
 		for _, sz := range []int{16, 32, 48, 64} {
